@@ -36,6 +36,11 @@ theorem plusv_only_on_safe_values :
 theorem config_secrets_masked :
     ["EncryptionKey", "OpenID.ClientJWK", "OpenID.ClientSecret", "Redis.Password", "Redis.URI"].all (fun f => maskedConfigFields.contains f) = true := by decide +kernel
 
+/-- ... and each of them is overwritten with the constant marker or with `url.URL.Redacted()` (which drops the password whatever its text): no masker
+    that searches for the secret's own characters (and can therefore miss an escaped or repeated one) -/
+theorem config_maskers_are_total :
+    maskedConfigAssignments.all (fun (_, rhs) => rhs == "redacted" || rhs == "u.Redacted()") = true := by decide +kernel
+
 /-- the per-request log attributes are built from cookie NAMES, the referer without query, and three Fetch-metadata headers — no header map, no raw query -/
 theorem request_attributes_safe :
     requestAttributes.all (fun a => !(hasInfix "r.Header)".toList a.toList || hasInfix "r.Cookies()".toList a.toList || hasInfix "RawQuery".toList a.toList ||
